@@ -54,7 +54,13 @@ type absOp struct {
 	Theta *int     `json:"theta,omitempty"`
 	// migrate: cut = number of bytes of the encoded file to keep (-1 = all)
 	Cut *int `json:"cut,omitempty"`
+	// setmeta / delmeta / initmeta (embedded store only)
+	Key   string `json:"key,omitempty"`
+	Value string `json:"value,omitempty"`
 }
+
+// metadata keys the driver observes after every step of a history that uses metadata
+var metaKeys = []string{"k1", "k2", "description", "version", "schema_version", "created_at", "last_updated_at"}
 
 type absKeys struct {
 	Sig   []string          `json:"sig"`
@@ -274,6 +280,7 @@ type storeDrv struct {
 	expPath string // where ExportToJSON writes (always on the OS file system)
 	drift   []map[string]any
 	steps   int
+	usesMeta  bool
 	tieThetas map[int]bool
 	verBase int // offset into the payload cycle (differs per history)
 	pad     int // bytes appended to every description (plan.Pad)
@@ -522,6 +529,24 @@ func (d *storeDrv) apply(op absOp) error {
 		d.tw.emit(map[string]any{"ev": "setcfg", "theta": d.theta, "tol": d.tol})
 	case "migrate":
 		return d.migrate(op)
+	case "setmeta", "delmeta", "initmeta":
+		if d.backend != "pebble" {
+			return nil // the JSON store has no metadata
+		}
+		d.usesMeta = true
+		var err error
+		switch op.Op {
+		case "setmeta":
+			err = d.peb.SetMetadata(op.Key, op.Value)
+			d.tw.emit(map[string]any{"ev": "setmeta", "key": op.Key, "value": op.Value, "err": err != nil})
+		case "delmeta":
+			err = d.peb.DeleteMetadata(op.Key)
+			d.tw.emit(map[string]any{"ev": "delmeta", "key": op.Key, "err": err != nil})
+		case "initmeta":
+			err = d.peb.InitializeMetadata(op.Value, op.Key)
+			d.tw.emit(map[string]any{"ev": "initmeta", "version": op.Value, "description": op.Key,
+				"dbver": pebbledb.CurrentDBVersion, "err": err != nil})
+		}
 	default:
 		return fmt.Errorf("unknown op %q", op.Op)
 	}
@@ -567,7 +592,29 @@ func (d *storeDrv) exportPebble() ([]detection.Signature, error) {
 	return doc.Signatures, nil
 }
 
+// observeMeta: every observed key, and the whole metadata record next to the signature count
+func (d *storeDrv) observeMeta() {
+	for _, k := range metaKeys {
+		v, err := d.peb.GetMetadata(k)
+		d.tw.emit(map[string]any{"ev": "getmeta", "key": k, "found": err == nil, "value": v})
+	}
+	m, err := d.peb.GetAllMetadata()
+	ev := map[string]any{"ev": "allmeta", "err": err != nil}
+	if err == nil {
+		custom := map[string]any{}
+		for k, v := range m.Custom {
+			custom[k] = v
+		}
+		ev["custom"], ev["version"], ev["description"], ev["count"] = custom, m.Version, m.Description, m.SignatureCount
+		ev["has_created"], ev["has_updated"] = !m.CreatedAt.IsZero(), !m.LastUpdatedAt.IsZero()
+	}
+	d.tw.emit(ev)
+}
+
 func (d *storeDrv) observePebble() {
+	if d.usesMeta {
+		defer d.observeMeta()
+	}
 	p := d.peb
 	for _, id := range d.plan.IDs {
 		s, err := p.GetSignature(id)
@@ -719,7 +766,19 @@ func (d *storeDrv) runHistory(hi int, h []histStep) error {
 			return err
 		}
 	}
-	d.tw.emit(map[string]any{"ev": "reset", "be": d.backend, "theta": d.theta, "tol": d.tol, "hist": hi})
+	reset := map[string]any{"ev": "reset", "be": d.backend, "theta": d.theta, "tol": d.tol, "hist": hi, "meta0": map[string]any{}}
+	d.usesMeta = false
+	if d.backend == "pebble" {
+		// the metadata a freshly opened database holds (the schema-version gate writes one key)
+		m0 := map[string]any{}
+		for _, k := range metaKeys {
+			if v, err := d.peb.GetMetadata(k); err == nil {
+				m0[k] = v
+			}
+		}
+		reset["meta0"] = m0
+	}
+	d.tw.emit(reset)
 	for si, st := range h {
 		if err := d.apply(st.Op); err != nil {
 			return fmt.Errorf("history %d step %d: %w", hi, si, err)
